@@ -244,7 +244,11 @@ func (env *Env) evalIdent(name string) Val {
 		return v
 	}
 	if p, ok := env.vars["&"+name]; ok {
-		return fc.loadPtr(env.st, p)
+		v := fc.loadPtr(env.st, p)
+		if fc.cur != nil && len(env.bound) == 0 {
+			fc.cur.assume(fc.wfFacts(v))
+		}
+		return v
 	}
 	if env.results != nil {
 		for i, rn := range env.resName {
